@@ -97,15 +97,23 @@ def check_one(cfg, res):
     dt = 120.0
     t_init = rnb.init_temp
 
+    ae0 = 1.0 / (log(r_o[0] / r_c[0]) / (2 * pi * kk[0]) + log(r_c[1] / r_i[1]) / (2 * pi * kk[1]))
+    rec["elapsed"] = 0.0
+    rec["steps_dt"] = set()
+
     def spy(dl, d, du, b, overwrite_b=0):
+        # the physical length of this implicit step as the matrix has it: du[0] = a_e / (rho c V / dt) for the core cell
+        dt_k = float(du[0]) * cap[0] / ae0
         out = real(dl, d, du, b, overwrite_b=overwrite_b)
         x = out[3]
         rec["n"] += 1
-        rec["out_sum"] += dt * (x[n - 2] - x[n - 1]) * a_e
+        rec["elapsed"] += dt_k
+        rec["steps_dt"].add(round(dt_k, 6))
+        rec["out_sum"] += dt_k * (x[n - 2] - x[n - 1]) * a_e
         k = rec["n"]
         if k in (1, 2, 10, 100) or k % 500 == 0:
             stored = float(np.sum(cap[: n - 1] * (x[: n - 1] - t_init)))
-            rec["checks"].append((k, stored, k * dt * 1.0 - rec["out_sum"]))
+            rec["checks"].append((k, stored, rec["elapsed"] * 1.0 - rec["out_sum"]))
         rec["last"] = x
         return out
 
@@ -116,7 +124,16 @@ def check_one(cfg, res):
         rn.dgtsv = real
     x = rec["last"]
     stored = float(np.sum(cap[: n - 1] * (x[: n - 1] - t_init)))
-    rec["checks"].append((rec["n"], stored, rec["n"] * dt - rec["out_sum"]))
+    rec["checks"].append((rec["n"], stored, rec["elapsed"] - rec["out_sum"]))
+    # the time labels against the time the matrices actually marched: the tool labels the k-th solve (k-1) steps (a known one-step
+    # offset, see DESIGN.md), so one step of slack is allowed and no more; the labelled period must reach the computed period
+    dt_max = max(rec["steps_dt"])
+    t_label = float(rnb.t_s * np.exp(lntts[-1]))
+    if abs(t_label - rec["elapsed"]) > dt_max * (1 + 1e-9) + 1e-6:
+        v("time_labels_disagree_with_marched_time", f"the last short-time point is labelled {t_label:.1f} s but the {rec['n']} implicit steps marched {rec['elapsed']:.1f} s "
+          f"(step lengths in the matrices: {sorted(rec['steps_dt'])[:4]})", observed=t_label, expected=rec["elapsed"])
+    if t_label < rnb.calc_time_in_sec - 2 * dt_max - 1e-6:
+        v("computed_period_not_covered", f"the last short-time point is at {t_label:.1f} s, the computed period is {rnb.calc_time_in_sec:.1f} s", observed=t_label, expected=rnb.calc_time_in_sec)
     for k, st, inj in rec["checks"]:
         if abs(st - inj) > 1e-6 * abs(inj):
             v("heat_not_conserved", f"after step {k}: cells store {st} J/m, injected minus far-field outflow is {inj} J/m (rel {abs(st - inj) / abs(inj):.2e})", step=k if k <= 100 else "later")
@@ -138,7 +155,7 @@ def check_one(cfg, res):
     # (f) independent finer solution at the same elapsed time
     if cfg.get("reference", True):
         layers = RF.layers_from_inputs(cfg["rb"], cfg["pipe"][0], cfg["pipe"][1], cfg["k_s"], cfg["rc_s"], cfg["rc_g"], 1542000.0, bhe.fluid.rhoCp, rf, rpg)
-        d_core, _ = RF.solve(layers, rec["n"], dt, refine=2, substeps=4)
+        d_core, _ = RF.solve(layers, max(1, int(round(rec["elapsed"] / dt))), dt, refine=2, substeps=4)
         g_ref = 2 * pi * cfg["k_s"] * (d_core / 1.0 - rb_star)
         g_last = float(g[-1])
         if abs(g_last - g_ref) > 0.005 * max(abs(g_ref), 1e-3):
